@@ -332,7 +332,7 @@ end
 /-! ### FFT ops: control plane always; data plane through the naive-DFT unit model when the blocks are small -/
 
 /-- largest FFT block for which the driver runs the naive-DFT unit (quadratic cost) -/
-def fftModelLimit : Nat := 700
+def fftModelLimit : Nat := 320
 
 structure FftSlot (σ : Type) where
   s : FState σ (Array σ)
